@@ -474,7 +474,8 @@ def linear_problem(ctx):
         a.absTOL = 1e-8
         a.line_search = rng.random() < 0.5
         a.modified_NR = rng.random() < 0.5
-        incs, cs = a.static(NLgeom=True, silent=True)
+        with np.errstate(all='ignore'):
+            incs, cs = a.static(NLgeom=True, silent=True)
         ctx.evaluations += 1
         lin = np.linalg.solve(Kd, f)
         cfgd = dict(initialInc=a.initialInc, maxInc=a.maxInc, K=Kd.tolist(), f=f.tolist(),
